@@ -58,16 +58,57 @@ ASSUMPTIONS = [
 ]
 REQUIRED_CELLS = {'quick': ['read:path=h', 'read:path=p', 'read:path=v', 'reread', 'op:w_flow', 'op:w_scale', 'op:w_T',
                             'op:w_P', 'op:w_phase', 'op:phases', 'op:w_H', 'op:mix_from', 'op:copy_like', 'op:copy_flow',
-                            'op:link', 'op:unlink', 'op:reset_thermo', 'op:empty', 'op:proxy', 'op:restore', 'op:mixH', 'op:revisit', 'op:swap', 'op:pkgswitch', 'pkgswitch:same-chemicals',
+                            'op:link', 'op:unlink', 'op:reset_thermo', 'op:empty', 'op:proxy', 'op:restore', 'op:mixH', 'op:revisit', 'op:swap', 'op:pkgswitch', 'op:volpattern', 'pkgswitch:same-chemicals',
                             'pkgswitch:other-chemicals',
                             'start:S', 'start:M'],
                   'thorough': []}
 
 READ_PROPS = ['H', 'S', 'C', 'Cn', 'V', 'rho', 'mu', 'kappa', 'sigma', 'epsilon', 'Hvap', 'Cp', 'alpha', 'nu', 'Pr',
               'F_vol', 'MW', 'h', 'Hnet']
+# per-chemical flows derived from the molar volume / molecular weight (read as whole vectors)
+VOL_READS = ['vol', 'ivol', 'z_vol', 'get_flow_m3', 'get_flow_L', 'vol_frac']
+MASS_READS = ['mass', 'imass', 'z_mass', 'get_flow_kg', 'mass_frac']
+READ_PROPS = READ_PROPS + VOL_READS + MASS_READS
+
+
+def _arr(x):
+    return np.asarray(x.to_array() if hasattr(x, 'to_array') else x, float)
+
+
+def _per_key(o, f):
+    names = list(o.chemicals.IDs)
+    if isinstance(o, tmo.MultiStream):
+        return np.array([[f((p, n)) for n in names] for p in sorted(o.phases)], float)
+    return np.array([f(n) for n in names], float)
+
+
+VREAD = {
+    'vol': lambda o: _arr(o.vol),
+    'mass': lambda o: _arr(o.mass),
+    'z_vol': lambda o: _arr(o.z_vol),
+    'z_mass': lambda o: _arr(o.z_mass),
+    'ivol': lambda o: _per_key(o, lambda k: o.ivol[k]),
+    'imass': lambda o: _per_key(o, lambda k: o.imass[k]),
+    'get_flow_m3': lambda o: _per_key(o, lambda k: o.get_flow('m3/hr', k)),
+    'get_flow_L': lambda o: _per_key(o, lambda k: o.get_flow('L/hr', k)),
+    'get_flow_kg': lambda o: _per_key(o, lambda k: o.get_flow('kg/hr', k)),
+    'vol_frac': lambda o: _arr((o.get_volumetric_composition if isinstance(o, tmo.MultiStream)
+                                else o.get_volumetric_fraction)(tuple(o.chemicals.IDs))),
+    'mass_frac': lambda o: _arr((o.get_mass_composition if isinstance(o, tmo.MultiStream)
+                                 else o.get_mass_fraction)(tuple(o.chemicals.IDs))),
+}
+
+
+def V_m3_per_kmol(pkg, name, phase, T, P):
+    """Molar volume of one chemical evaluated on the chemical object itself (reference for volumetric writes)."""
+    V = getattr(_PK[pkg].chemicals, name).V
+    f = getattr(V, phase) if hasattr(V, phase) else V
+    return 1000. * float(f(T, P))
+
+
 # properties computed from the same memo entry
 _FAM = [['H', 'h', 'Hnet'], ['S'], ['C', 'Cn', 'Cp', 'alpha', 'Pr'], ['V', 'rho', 'F_vol', 'alpha', 'nu'], ['mu', 'nu', 'Pr'],
-        ['kappa', 'alpha', 'Pr'], ['sigma'], ['epsilon'], ['Hvap'], ['MW', 'Cp', 'rho']]
+        ['kappa', 'alpha', 'Pr'], ['sigma'], ['epsilon'], ['Hvap'], ['MW', 'Cp', 'rho'], VOL_READS + ['F_vol'], MASS_READS]
 SIBLINGS = {p: sorted({q for fam in _FAM if p in fam for q in fam}) for p in READ_PROPS}
 T_PAL = [280., 300., 320., 350., 400.]
 P_PAL = [101325., 5e4, 2e5, 1e6]
@@ -277,7 +318,7 @@ def same_state(st, raw):
 
 def attempt(obj, prop):
     try:
-        return ('ok', getattr(obj, prop))
+        return ('ok', VREAD[prop](obj) if prop in VREAD else getattr(obj, prop))
     except Exception as e:        # noqa: BLE001 - the exception type is the observation
         return ('exc', type(e).__name__, str(e)[:120])
 
@@ -291,6 +332,17 @@ def close(got, exp, prop, st):
     a, b = got[1], exp[1]
     if a is None or b is None:
         return (a is None and b is None), None
+    if isinstance(a, np.ndarray) or isinstance(b, np.ndarray):
+        a = np.asarray(a, float); b = np.asarray(b, float)
+        if a.shape != b.shape: return False, None
+        nan = np.isnan(a)
+        if (nan != np.isnan(b)).any(): return False, None
+        a = np.where(nan, 0., a); b = np.where(nan, 0., b)
+        scale = np.maximum(np.abs(a), np.abs(b))
+        err = np.abs(a - b)
+        ok = bool((err <= RTOL * scale).all())
+        rel = float((err / np.where(scale > 0, scale, 1.)).max()) if a.size else 0.0
+        return ok, rel
     a = float(a); b = float(b)
     if a == b:
         return True, 0.0
@@ -650,6 +702,66 @@ def op_mixH(ch, W, ctx):
     ctx.cell('read:path=' + p1[0])
 
 
+def vol_write(W, ctx, path, h, obj, how, ph, nme, v, region):
+    """Write v m3/hr of one chemical through a volumetric view; the model takes v / V_i(phase, T, P)."""
+    names = h.names()
+    if ph is None:
+        phase = path[2] if path[0] == 'v' else h.ph.val
+        vec = h.vec(path[2]) if path[0] == 'v' else h.vec()
+        if how == 'ivol_name': ctx.call('op.' + how, obj.ivol.__setitem__, nme, v, region=region)
+        elif how == 'vol_item': ctx.call('op.' + how, obj.vol.__setitem__, names.index(nme), v, region=region)
+        else: ctx.call('op.' + how, obj.set_flow, v, 'm3/hr', nme, region=region)
+    else:
+        phase = ph; vec = h.vec(ph)
+        if how == 'ivol_pn': ctx.call('op.' + how, obj.ivol.__setitem__, (ph, nme), v, region=region)
+        else: ctx.call('op.' + how, obj.set_flow, v, 'm3/hr', (ph, nme), region=region)
+    vec[nme] = v / V_m3_per_kmol(h.pkg, nme, phase, h.tc.T, h.tc.P)
+
+
+def op_volpattern(ch, W, ctx):
+    """[change T / P / phase] - write one flow in m3/hr (first use of that molar volume at this condition) -
+    change only T or only P - read the per-chemical volumetric flows."""
+    paths = [p for p in write_paths(W) if not (p[0] != 'v' and target(W, p)[0].dc.hazard())]
+    if not paths:
+        ctx.cell('volpattern->read'); return op_read(ch, W, ctx)
+    path = ch.choice('vp.path', paths)
+    h, rows = target(W, path)
+    obj = get_obj(W, ctx, path)
+    multi = path[0] in ('h', 'p') and h.kind == 'M'
+    names = h.names()
+    def setTP(which, tag):
+        if which == 'T':
+            new = ch.choice(tag, [t for t in T_PAL if t != h.tc.T])
+            ctx.call('op.T', setattr, obj, 'T', new, region=f'path={path[0]}'); h.tc.T = new
+        else:
+            new = ch.choice(tag, [x for x in P_PAL if x != h.tc.P])
+            ctx.call('op.P', setattr, obj, 'P', new, region=f'path={path[0]}'); h.tc.P = new
+    pre = ch.choice('vp.pre', ['T', 'P', 'none'])
+    if pre != 'none': setTP(pre, 'vp.pre.val')
+    nme = ch.choice('vp.name', names); v = draw_v(ch)
+    region = f'path={path[0]},kind={"M" if multi else "S"}'
+    if multi:
+        ph = ch.choice('vp.phase', list(h.phases))
+        how = ch.choice('vp.how', ['ivol_pn', 'set_flow_m3_pn'])
+    else:
+        ph = None
+        how = ch.choice('vp.how', ['ivol_name', 'vol_item', 'set_flow_m3'])
+    W.trace.append(f'volpattern {pkey(path)} pre={pre} {how} {nme}')
+    vol_write(W, ctx, path, h, obj, how, ph, nme, v, region)
+    mutated(W, W.trace[-1])
+    post = ch.choice('vp.post', ['T', 'P'])
+    setTP(post, 'vp.post.val')
+    W.trace.append(f'volpattern {pkey(path)} then {post}')
+    mutated(W, W.trace[-1])
+    rp = [p for p in read_paths(W) if (('a' if p[0] in ('p', 'pv') else p[1]) == h.name)]
+    if not rp:
+        ctx.cell('avoided:volpattern-no-readable-path'); return
+    p2 = ch.choice('vp.p2', ([path] * 2 if path in rp else []) + rp)
+    q = ch.choice('vp.prop', VOL_READS * 2 + ['F_vol', 'V', 'rho'])
+    W.trace.append(f'read {pkey(p2)}.{q}')
+    check_read(W, ctx, p2, q)
+
+
 def op_w_flow(ch, W, ctx):
     paths = write_paths(W)
     path = ch.choice('w.path', paths)
@@ -661,12 +773,13 @@ def op_w_flow(ch, W, ctx):
     if not multi:
         vec = rows[0]
         hows = ['mol_item', 'mol_slice', 'mol_all', 'mol_setter', 'mass_item', 'mass_slice', 'imol_name', 'imol_names',
-                'imass_name', 'set_flow']
+                'imass_name', 'set_flow', 'ivol_name', 'vol_item', 'set_flow_m3']
         if path[0] != 'v' and h.dc.hazard() and 'datacache' in W.explore:
             hows = ['mass_item', 'imass_name', 'mass_slice', 'set_flow'] * 2 + hows
         how = ch.choice('w.how', hows)
         if path[0] == 'v' and how == 'mol_setter': how = 'mol_all'
-        if how in ('mass_item', 'mass_slice', 'imass_name', 'set_flow') and path[0] != 'v' and h.dc.hazard():
+        if how in ('mass_item', 'mass_slice', 'imass_name', 'set_flow', 'ivol_name', 'vol_item', 'set_flow_m3') \
+                and path[0] != 'v' and h.dc.hazard():
             if 'datacache' not in W.explore:
                 ctx.cell('avoided:mass-write-through-shared-data-cache'); return
             W.dc_tainted = True
@@ -693,6 +806,9 @@ def op_w_flow(ch, W, ctx):
             if how == 'mol_all': ctx.call('op.' + how, obj.mol.__setitem__, slice(None), np.array(vals, float), region=region)
             else: ctx.call('op.' + how, setattr, obj, 'mol', np.array(vals, float), region=region)
             for nme, v in zip(names, vals): vec[nme] = float(v)
+        elif how in ('ivol_name', 'vol_item', 'set_flow_m3'):
+            nme = ch.choice('w.name', names); v = draw_v(ch)
+            vol_write(W, ctx, path, h, obj, how, None, nme, v, region)
         elif how in ('imol_name', 'imass_name', 'set_flow'):
             nme = ch.choice('w.name', names); v = draw_v(ch)
             if how == 'imol_name':
@@ -707,17 +823,20 @@ def op_w_flow(ch, W, ctx):
             ctx.call('op.' + how, obj.imol.__setitem__, tuple(sub), np.array(vals, float), region=region)
             for nme, v in zip(sub, vals): vec[nme] = float(v)
     else:
-        hows = ['imol_pn', 'imol_pnames', 'imass_pn', 'imol_prow']
+        hows = ['imol_pn', 'imol_pnames', 'imass_pn', 'imol_prow', 'ivol_pn', 'set_flow_m3_pn']
         if h.dc.hazard() and 'datacache' in W.explore: hows = ['imass_pn'] * 3 + hows
         how = ch.choice('w.how', hows)
         ph = ch.choice('w.phase', list(h.phases))
         vec = h.vec(ph)
-        if how == 'imass_pn' and h.dc.hazard():
+        if how in ('imass_pn', 'ivol_pn', 'set_flow_m3_pn') and h.dc.hazard():
             if 'datacache' not in W.explore:
                 ctx.cell('avoided:mass-write-through-shared-data-cache'); return
             W.dc_tainted = True
         W.trace.append(f'w_flow {pkey(path)} {how} {ph}')
-        if how in ('imol_pn', 'imass_pn'):
+        if how in ('ivol_pn', 'set_flow_m3_pn'):
+            nme = ch.choice('w.name', names); v = draw_v(ch)
+            vol_write(W, ctx, path, h, obj, how, ph, nme, v, region)
+        elif how in ('imol_pn', 'imass_pn'):
             nme = ch.choice('w.name', names); v = draw_v(ch)
             if how == 'imol_pn':
                 ctx.call('op.' + how, obj.imol.__setitem__, (ph, nme), v, region=region); vec[nme] = v
@@ -1422,7 +1541,7 @@ def op_revisit(ch, W, ctx):
 
 
 OPS = {
-    'read': (op_read, 10), 'revisit': (op_revisit, 3), 'pkgswitch': (op_pkgswitch, 2), 'mixH': (op_mixH, 1),
+    'read': (op_read, 10), 'revisit': (op_revisit, 3), 'pkgswitch': (op_pkgswitch, 2), 'volpattern': (op_volpattern, 2), 'mixH': (op_mixH, 1),
     'w_flow': (op_w_flow, 3), 'w_scale': (op_w_scale, 3), 'w_T': (op_w_T, 3), 'w_P': (op_w_P, 2), 'w_phase': (op_w_phase, 2),
     'w_H': (op_w_H, 1), 'swap': (op_swap, 2), 'empty': (op_empty, 1), 'phases': (op_phases, 2), 'mix_from': (op_mix_from, 2),
     'copy_like': (op_copy_like, 1), 'copy_flow': (op_copy_flow, 1), 'link': (op_link, 2), 'unlink': (op_unlink, 1),
